@@ -34,13 +34,10 @@ NODE_STRUCTS = ("Bucket_s", "BTree_s", "BTreeItem_s", "Bucket", "BTree", "BTreeI
 SLOT_FIELDS = ("keys", "values", "key", "child", "next", "firstbucket")
 # accepted idioms (one named construct + reason each)
 ATTACHED_OK = {
-    ("_BTree_set", "d->child"):
-        "the child released here is empty (the code is reached only with "
-        "childlength == 0): an empty node of the built-in types holds no user "
-        "object and has no weak references, so its release runs no foreign code",
-    ("_BTree_set", "self->firstbucket"):
-        "the first bucket released here is the emptied leaf that is being "
-        "unlinked (status 2 / childlength == 0): its release runs no foreign code",
+    # (the two releases of emptied nodes in _BTree_set were listed here with the
+    #  reason "an empty node of the built-in types has no weak references"; a
+    #  leaf class defined in Python has them - witness/agents/child_uaf.py - and
+    #  the code was repaired instead, /repo fix "released an emptied child")
     ("bucket_fromBytes", "self->next"):
         "fs buckets store native 2- and 6-byte strings only: releasing a "
         "successor bucket frees memory and runs no foreign code",
